@@ -341,6 +341,22 @@ func workC18(req *Request, set []byte) {
 			step(req, "client|"+full, func(o *Obs) {
 				props := obj.ClientProperties()
 				o.Viol = checkProps("client:"+full, props, md)
+				// the two flags as the model defines them: duplicate names among the client
+				// properties; any other violation (paths, kinds, members of exposed oneofs)
+				dup, unres := "nodup", "resolved"
+				seen := map[string]bool{}
+				for _, p := range props {
+					if seen[p.JSONName] {
+						dup = "dup"
+					}
+					seen[p.JSONName] = true
+				}
+				for _, v := range o.Viol {
+					if strings.HasPrefix(v, "path-resolves") || (strings.HasPrefix(v, "names-unique") && !strings.HasPrefix(v, "names-unique: client:"+full+" has")) {
+						unres = "unresolved"
+					}
+				}
+				o.Sub = []string{dup, unres}
 			})
 		}
 		step(req, "newroot|"+full, func(o *Obs) {
@@ -354,7 +370,7 @@ func workC18(req *Request, set []byte) {
 			}
 		})
 		step(req, "codec|"+full, func(o *Obs) {
-			c := j5codec.NewCodec()
+			c := j5codec.NewCodec(j5codec.WithProtoToAny())
 			sub := func(f func() error) {
 				class, msg, site := guard(f)
 				o.Sub = append(o.Sub, class)
@@ -411,6 +427,24 @@ func workC18(req *Request, set []byte) {
 			}
 			o.Sub = append(o.Sub, encP, decP)
 			o.SubMsg = append(o.SubMsg, short(encM), short(decM))
+			// one message per field with only that field set: the worst encode class
+			// is what the model's per-property usability predicts
+			fieldClass, fieldMsg := "ok", ""
+			for i := 0; i < md.Fields().Len(); i++ {
+				one := descgen.PopulateField(md, i)
+				class, msg, site := guard(func() error {
+					_, err := c.ProtoToJSON(one)
+					return err
+				})
+				if site != "" {
+					msg += " @" + site
+				}
+				if rank[class] > rank[fieldClass] {
+					fieldClass, fieldMsg = class, string(md.Fields().Get(i).Name())+": "+msg
+				}
+			}
+			o.Sub = append(o.Sub, fieldClass)
+			o.SubMsg = append(o.SubMsg, short(fieldMsg))
 		})
 	}
 
